@@ -28,7 +28,7 @@ STUB_LINES = (
 class Harness:
     def __init__(self, name, crate="hk", features=(), tiers=("quick", "thorough"), covers=0,
                  timeout=900, mem_gb=8, what="", bounds="", sched=False, extra=(), expect_stubs=True,
-                 known=None, unwindset=None, cbmc_args=(), concrete=False):
+                 known=None, unwindset=None, cbmc_args=(), concrete=False, native_space=None):
         self.name = name            # module::function, used with --exact
         self.crate = crate          # hk (plain pal crate) or hs (instrumented drop-in)
         self.features = tuple(features)
@@ -47,6 +47,9 @@ class Harness:
         self.unwindset = dict(unwindset or {})
         self.cbmc_args = tuple(cbmc_args)   # extra CBMC options (e.g. --max-field-sensitivity-array-size)
         self.concrete = concrete            # the harness has no kani::any() input: its native run is the replay
+        # [(type, values)] in the order of the harness' kani::any() calls, for harnesses whose whole input space
+        # is small enough to be executed natively as confirmation of a solver counterexample
+        self.native_space = native_space
 
     @property
     def short(self):
